@@ -187,7 +187,18 @@ class Poller(object):
         t = None if timeout_ms is None else timeout_ms / 1000.0
         if t is not None and t < 0:
             t = None               # poll(): negative means infinite
-        return [(fd, _select.POLLIN) for fd in self._w.wait(self.fds, t)]
+        out = []
+        for fd in self._w.wait(self.fds, t):
+            v = self._w.fds.get(fd)
+            if v is not None and not v.buf and v.end is not None:
+                # what the kernel reports for a pipe or pty whose other side has gone and that holds no more data:
+                # a bare hang-up, no POLLIN
+                out.append((fd, _select.POLLHUP))
+            elif v is not None and v.end is not None:
+                out.append((fd, _select.POLLIN | _select.POLLHUP))
+            else:
+                out.append((fd, _select.POLLIN))
+        return out
 
 
 class SelectProxy(object):
